@@ -396,7 +396,7 @@ class CatLinearOperator(LinearOperator):
         Optional[Float[Tensor, "..."]],
     ]:
         res = super().inv_quad_logdet(inv_quad_rhs, logdet, reduce_inv_quad)
-        return tuple(r.to(self.device) for r in res)
+        return tuple(r.to(self.device) if r is not None else None for r in res)
 
     @property
     def device(self) -> Optional[torch.device]:
